@@ -484,6 +484,9 @@ int read_fasta( struct in_buffer* b,struct msa** m)
                                                 resize_msa_seq(seq_ptr);
                                         }
                                 }else if(ispunct((unsigned char)line[i])){
+                                        if(!seq_ptr){
+                                                ERROR_MSG("Encountered a sequence before encountering it's name");
+                                        }
                                         seq_ptr->gaps[seq_ptr->len]++;
                                 }
                         }
